@@ -39,12 +39,12 @@ var linkLocal = func() string {
 }()
 
 type addrCase struct {
-	Kind   string // tcp4, tcp6, tcp6-lo-zone, tcp6-linklocal, unix
-	Cfg    fx.Cfg
-	Long   int // long-lived connections
-	Churn  int // short connections
-	ClientChurn int // gnet-client connections opened and closed in the same process (they recycle zone strings)
-	Span   bool // handlers split small Peek/Next across the two inbound buffers (pool Gets of a few bytes)
+	Kind        string // tcp4, tcp6, tcp6-lo-zone, tcp6-linklocal, unix
+	Cfg         fx.Cfg
+	Long        int  // long-lived connections
+	Churn       int  // short connections
+	ClientChurn int  // gnet-client connections opened and closed in the same process (they recycle zone strings)
+	Span        bool // handlers split small Peek/Next across the two inbound buffers (pool Gets of a few bytes)
 }
 
 func (c addrCase) String() string {
@@ -52,15 +52,15 @@ func (c addrCase) String() string {
 }
 
 type aconn struct {
-	s        *asession
-	id       int
-	wantRemote string // the peer's own local address
+	s               *asession
+	id              int
+	wantRemote      string // the peer's own local address
 	remote0, local0 string
-	fails    *[]string
-	mu       *sync.Mutex
-	cbs      int32
-	closedCh chan struct{}
-	span     bool
+	fails           *[]string
+	mu              *sync.Mutex
+	cbs             int32
+	closedCh        chan struct{}
+	span            bool
 }
 
 func (a *aconn) failf(key, f string, args ...any) {
